@@ -77,3 +77,97 @@ Example replay_older_jmpbuf_now_right :
   rp_run rp0 witness_old_jmpbuf = [0; 1; 2; 2; 2; 3; 3; 3; 4; 2; 2; 2; 1; 0] /\
   ok_replay witness_old_jmpbuf (rp_run rp0 witness_old_jmpbuf) = true.
 Proof. vm_compute. auto. Qed.
+
+(* ================================================================ several tasks sharing the two statics *)
+(* one step: whatever the statics hold - they need only be equal to each other, which every writer ensures -
+   the record is shown at its true depth and the relation is kept *)
+Lemma rp_step_rel : forall p g e g' d, rel p g -> gt_step g e = Some (g', d) ->
+  snd (rp_step p e) = d /\ rel (fst (rp_step p e)) g'.
+Proof.
+  intros p g e g' d [Hp [Hsd [Hsj Hd]]] Hstep. destruct e as [k|dx].
+  - unfold gt_step in Hstep. destruct (g_pend g) eqn:Egp; [discriminate|]. specialize (Hd eq_refl).
+    destruct k as [|jb|jb]; unfold rp_step.
+    + inversion Hstep; subst. cbn [fst snd]. split; [rewrite Hd; apply N2Z.id|].
+      repeat split; cbn; intros; try lia; try assumption.
+    + inversion Hstep; subst. cbn [fst snd]. split; [rewrite Hd; apply N2Z.id|].
+      repeat split; cbn; intros; try lia; try assumption.
+    + destruct (assoc jb (g_jb g)) as [dj|] eqn:Ea; [|discriminate]. inversion Hstep; subst. cbn [fst snd].
+      split; [rewrite Hd; apply N2Z.id|].
+      repeat split; cbn; intros; try lia; try assumption; try discriminate.
+  - unfold gt_step in Hstep. destruct ((0 <? g_depth g) && (dx =? g_depth g - 1)) eqn:Eg; [|discriminate].
+    apply andb_prop in Eg. destruct Eg as [Epos Ed]. apply N.ltb_lt in Epos. apply N.eqb_eq in Ed.
+    inversion Hstep; subst g' d. clear Hstep.
+    unfold rp_step. cbv zeta.
+    assert (Hdd : (let diff := if lj_pending p then (stack_count p - 1 - Z.of_N dx)%Z else 0%Z in
+                   let dd1 := if (diff =? 0)%Z then display_depth p else Z.max 0 (display_depth p - diff) in
+                   let sc1 := (stack_count p - diff)%Z in
+                   dd1 = Z.of_N dx + 1 /\ sc1 = Z.of_N dx + 1)%Z).
+    { cbv zeta. destruct (lj_pending p) eqn:Elp.
+      - destruct (stack_count p - 1 - Z.of_N dx =? 0)%Z eqn:Ez; [apply Z.eqb_eq in Ez|apply Z.eqb_neq in Ez]; lia.
+      - assert (Hgp : g_pend g = false) by congruence. specialize (Hd Hgp). cbn. lia. }
+    cbv zeta in Hdd. destruct Hdd as [H1 H2]. rewrite H1, H2.
+    assert (E1 : (0 <? Z.of_N dx + 1)%Z = true) by (apply Z.ltb_lt; lia). rewrite E1.
+    replace (Z.of_N dx + 1 - 1)%Z with (Z.of_N dx) by lia. cbn [fst snd].
+    split; [rewrite N2Z.id; lia|].
+    repeat split; cbn; intros; try lia; try assumption.
+Qed.
+
+(* the part of rel that concerns the task only *)
+Definition trel (k : tk) (g : gt) : Prop :=
+  k_pend k = g_pend g /\ k_sc k = k_dd k /\ (g_pend g = false -> k_dd k = Z.of_N (g_depth g)).
+Lemma rel_view : forall s t g, rel (view s t) g <-> (trel (m_task s t) g /\ m_sd s = m_sc s).
+Proof. intros s t g. unfold rel, trel, view. cbn. tauto. Qed.
+
+Definition minv (s : rpm) (g : N -> gt) : Prop := m_sd s = m_sc s /\ forall t, trel (m_task s t) (g t).
+
+Lemma rpm_step_inv : forall s g t e g' d, minv s g -> gt_step (g t) e = Some (g', d) ->
+  snd (rpm_step s t e) = d /\ minv (fst (rpm_step s t e)) (fun x => if x =? t then g' else g x).
+Proof.
+  intros s g t e g' d [Hst Hall] Hstep.
+  assert (Hrel : rel (view s t) (g t)) by (apply rel_view; split; [apply Hall|exact Hst]).
+  destruct (rp_step_rel _ _ _ _ _ Hrel Hstep) as [Hd Hrel'].
+  unfold rpm_step. cbn [fst snd]. split; [exact Hd|].
+  destruct Hrel' as [R1 [R2 [R3 R4]]].
+  split; cbn [m_sd m_sc m_task]; [exact R3|].
+  intro u. destruct (u =? t) eqn:Eu.
+  - unfold trel. cbn. repeat split; assumption.
+  - apply Hall.
+Qed.
+
+Lemma replay_tasks_gen : forall es s g l, minv s g -> gtm_run g es = Some l -> rpm_run s es = l.
+Proof.
+  induction es as [|[t e] es IH]; intros s g l Hinv Hrun; cbn [gtm_run rpm_run] in *.
+  - inversion Hrun. reflexivity.
+  - destruct (gt_step (g t) e) as [[g' d]|] eqn:Es; [|discriminate].
+    destruct (gtm_run _ es) as [l'|] eqn:Er; [|discriminate]. inversion Hrun; subst l. clear Hrun.
+    destruct (rpm_step_inv _ _ _ _ _ _ Hinv Es) as [Hd Hinv'].
+    f_equal; [exact Hd|]. eapply IH; [exact Hinv'|exact Er].
+Qed.
+
+(* for EVERY merged stream of any number of tasks in which every task's own records are faithful, replay shows
+   every record at its true depth - although the "latest setjmp" it guesses at a longjmp may be another task's *)
+Theorem replay_depth_all_tasks : forall es l, gtm_run (fun _ => gt0) es = Some l -> rpm_run rpm0 es = l.
+Proof.
+  intros es l H. eapply replay_tasks_gen; [|exact H].
+  split; [reflexivity|]. intro t. unfold trel. cbn. repeat split; auto.
+Qed.
+
+(* non-vacuity: task 1 sets its jmp_buf at depth 4, task 2 then calls setjmp at depth 2, task 1 jumps: the guess
+   is task 2's depth (too shallow by 2) and the EXIT record of task 1's setjmp puts it right.  With the
+   resynchronisation restricted to guesses that are too deep the calls after the jump are misplaced. *)
+Definition witness_cross_task : list (N * sev) :=
+  [(1, SEntry SNormal); (1, SEntry SNormal); (1, SEntry SNormal); (1, SEntry SNormal);   (* thread_a a1 a2 a3 *)
+   (1, SEntry (SSetjmp 1)); (1, SExit 4);                                                 (* setjmp depth 4 *)
+   (2, SEntry SNormal); (2, SEntry SNormal);                                              (* thread_b b1 *)
+   (2, SEntry (SSetjmp 2)); (2, SExit 2);                                                 (* setjmp depth 2 *)
+   (2, SExit 1); (2, SExit 0);
+   (1, SEntry SNormal); (1, SEntry SNormal);                                              (* a_mid a_leaf *)
+   (1, SEntry (SLongjmp 1)); (1, SExit 4);                                                (* longjmp; setjmp returns again *)
+   (1, SEntry SNormal); (1, SExit 4);                                                     (* after_jump: true depth 4 *)
+   (1, SExit 3); (1, SExit 2); (1, SExit 1); (1, SExit 0)].
+Example replay_cross_task_right :
+  gtm_run (fun _ => gt0) witness_cross_task = Some [0; 1; 2; 3; 4; 4; 0; 1; 2; 2; 1; 0; 4; 5; 6; 4; 4; 4; 3; 2; 1; 0] /\
+  rpm_run rpm0 witness_cross_task = [0; 1; 2; 3; 4; 4; 0; 1; 2; 2; 1; 0; 4; 5; 6; 4; 4; 4; 3; 2; 1; 0] /\
+  rpm_run_with rp_step_shrink_only rpm0 witness_cross_task
+    = [0; 1; 2; 3; 4; 4; 0; 1; 2; 2; 1; 0; 4; 5; 6; 2; 2; 2; 1; 0; 0; 0].
+Proof. vm_compute. auto. Qed.
